@@ -99,9 +99,11 @@ func ApplyUmaskDir(mode int64) int64 {
 // Returns the tree, commit hash (if applicable), commit time, and any error.
 func ResolveTreeish(st storage.Storer, treeish string, allowUnreachable bool) (*object.Tree, *plumbing.Hash, time.Time, error) {
 	var subPath string
+	var isTreePath bool
 	if idx := strings.IndexByte(treeish, ':'); idx >= 0 {
 		subPath = treeish[idx+1:]
 		treeish = treeish[:idx]
+		isTreePath = true
 	}
 
 	if !allowUnreachable {
@@ -174,6 +176,13 @@ func ResolveTreeish(st storage.Storer, treeish string, allowUnreachable bool) (*
 		if err != nil {
 			return nil, nil, time.Time{}, err
 		}
+	}
+
+	if isTreePath {
+		// <rev>:<path> (also <rev>:) names a tree, not a commit: like git
+		// archive, record no commit ID and use the current time.
+		commitHash = nil
+		commitTime = time.Now()
 	}
 
 	return tree, commitHash, commitTime, nil
